@@ -738,6 +738,18 @@ impl<'a> Eval<'a> {
                     Some(b) => b.clone(),
                 };
                 let mut o = Vec::new();
+                let mut body = body;
+                let mut paren_text = paren_text;
+                if formals.is_empty() && m.formals.is_none() && paren_text.is_some() {
+                    // text level: the restored argument list directly follows the body, so a body that ends in an
+                    // argument-less usage hands the list to that usage
+                    if let Some(Piece::Use(n, None)) = body.last().cloned() {
+                        let a: Vec<Option<Vec<Piece>>> = args.unwrap().iter().map(|x| x.as_ref().map(|t| vec![Piece::Tok(t.clone())])).collect();
+                        body.pop();
+                        body.push(Piece::Use(n, Some(a)));
+                        paren_text = None;
+                    }
+                }
                 for p in &body {
                     self.piece(p, &vals, formals, depth, &mut o)?;
                 }
